@@ -403,6 +403,9 @@ def percent_format(I, fmt, arg):
             return fmt % arg
         except (TypeError, ValueError) as e:
             I.raise_builtin(type(e).__name__, str(e))
+    if isinstance(fmt, str) and isinstance(arg, Sym):
+        from .numfmt import percent_format as pf
+        return pf(I, fmt, arg)
     raise OutOfReach("%-formatting of symbolic values")
 
 
@@ -416,6 +419,9 @@ def format_value(I, val, spec, conv):
             I.raise_builtin(type(e).__name__, str(e))
     if spec == "":
         return py_str_of(I, val)
+    if isinstance(spec, str) and isinstance(val, Sym):
+        from .numfmt import format_spec
+        return format_spec(I, val, spec)
     raise OutOfReach("format spec %r on symbolic value" % (spec,))
 
 
@@ -434,6 +440,9 @@ def py_str_of(I, v):
             return Sym(VStr(S(get_s(t))))
         if k == "VNone":
             return "None"
+        if k == "VInt":
+            from .numfmt import int_to_str
+            return int_to_str(I, S(get_i(t)))
         return Sym(VStr(z3.If(is_str(t), get_s(t), smt.py_str(t))))
     if isinstance(v, (IObject, RObj)):
         f, _ = v.cls.lookup("__str__")
